@@ -5479,9 +5479,10 @@ class Entity(object, metaclass=EntityMeta):
         if obj._status_ not in ('created', 'modified', 'marked_to_delete'):
             return
 
-        assert obj._save_pos_ is not None, 'save_pos is None for %s object' % obj._status_
         cache = obj._session_cache_
-        assert cache is not None and cache.is_alive and not cache.saved_objects
+        if cache is None or not cache.is_alive: throw_db_session_is_over('flush object', obj)
+        assert obj._save_pos_ is not None, 'save_pos is None for %s object' % obj._status_
+        assert not cache.saved_objects
         with cache.flush_disabled():
             obj._before_save_() # should be inside flush_disabled to prevent infinite recursion
                                 # TODO: add to documentation that flush is disabled inside before_xxx hooks
